@@ -6,8 +6,8 @@ package main
 //      calls and queries interleaved between its DeliverTx calls; every transaction is offered to Simulate and to
 //      CheckTx before it is delivered (a node that saw the transaction in its mempool and served a gas estimate)
 //   C  separate OS process, GOMAXPROCS=1, started >= 1.1 s later, MemDB, with another node-local configuration:
-//      genesis invariants not asserted (--x-crisis-skip-assert-invariants), every invariant asserted in every block
-//      (--inv-check-period 1); its process runs in another local time zone and locale
+//      genesis invariants not asserted (--x-crisis-skip-assert-invariants), every invariant asserted in every second block
+//      (--inv-check-period 2); its process runs in another local time zone and locale
 // B's recording carries A's and C's app hash / tx results next to its own so that the verdict is
 // computed by TLC (Trace.tla monitors ReplicasAgree / RestartResumesCommitted).
 
@@ -129,7 +129,7 @@ func cmdReplica(fs *flag.FlagSet, in, out string, seed int64) error {
 				}
 			}
 		}
-		ref, err := runRef(b, "mem", M{"skipInv": true, "invPeriod": 1})
+		ref, err := runRef(b, "mem", M{"skipInv": true, "invPeriod": 2})
 		if err != nil {
 			return fmt.Errorf("behaviour %d: %w", i, err)
 		}
